@@ -30,7 +30,7 @@ func aggValue(r *Rng, nanOK bool) any {
 	case 3, 4:
 		return float64(r.Range(-12, 12)) / 4
 	case 5:
-		return Pick(r, []string{"3", "-1.5", "2e1", "0.25", "7", ".5", "+2", "-.25", "1_0"})
+		return Pick(r, []string{"3", "-1.5", "2e1", "0.25", "7", ".5", "+2", "-.25", "1_0", "010", "0017", "-012", "08", "0x10", "1e2"})
 	case 6:
 		if nanOK {
 			return Pick(r, []float64{math.NaN(), math.NaN(), math.Inf(1), math.Inf(-1)})
@@ -203,6 +203,18 @@ func genAgg(r *Rng, tier string) *Enc {
 			}
 			left.Columns[ln[j]] = &dataframe.Column[any]{Name: ln[j], Data: dl}
 			other.Columns[rn[j]] = &dataframe.Column[any]{Name: rn[j], Data: dr}
+		}
+	}
+	if r.Chance(5) {
+		// operands with the SAME names, two of which differ only in letter case
+		left, other = dataframe.NewDataFrame(), dataframe.NewDataFrame()
+		for _, nm := range []string{"x", "X", "y"}[:r.Range(2, 3)] {
+			dl, dr := make([]any, n), make([]any, n)
+			for i := 0; i < n; i++ {
+				dl[i], dr[i] = aggValue(r, false), aggValue(r, false)
+			}
+			left.Columns[nm] = &dataframe.Column[any]{Name: nm, Data: dl}
+			other.Columns[nm] = &dataframe.Column[any]{Name: nm, Data: dr}
 		}
 	}
 	hasFill := r.Bool()
